@@ -245,6 +245,20 @@ Theorem C05_delegate_silent : forall f pop i,
 Proof. exact delegate_silent. Qed.
 Print Assumptions C05_delegate_silent.
 
+(* ---- one dispatcher object reused: every evaluation is a function of the arguments of the last
+   dispatch; dispatching without a timer removes an earlier (expired) time limit *)
+Theorem C05_session_last_dispatch : forall par d st before o t pops,
+  run_session par d st (before ++ Dispatch o t :: map Evaluate pops) =
+  run_session par d st before ++ map (evaluate_fresh par o d (timer_or_forever t)) pops.
+Proof. exact session_last_dispatch. Qed.
+Print Assumptions C05_session_last_dispatch.
+
+Theorem C05_session_timer_reset : forall par d st o1 o2 pop1 pop2,
+  run_session par d st [Dispatch o1 (Some (fun _ => true)); Evaluate pop1; Dispatch o2 None; Evaluate pop2] =
+  [evaluate_fresh par o1 d (fun _ => true) pop1; evaluate_fresh par o2 d forever_timer pop2].
+Proof. exact session_timer_reset. Qed.
+Print Assumptions C05_session_timer_reset.
+
 (* ---- the oracle's boolean predicates decide the propositions used above *)
 Theorem C05_in_scope_reflects : forall c,
   in_scope c = true <->
